@@ -75,6 +75,8 @@ def judge(chk, case):
         block = lp.run_block(dg['point'])
         sending = any(fr[1] in ('put', 'send', 'send_msg', '_send_result', 'child_end', 'sendall', '_send_bytes', 'remote_dumps') for fr in dg['point'].get('stack') or [])
         key = '%s:%s:%s:%s:%s' % (probs[0], kind_of(cls), region, block, 'inside-report-send' if sending else 'other')
+        if lp.stdlib_internal(dg['point']):
+            key = 'terminate-inside-stdlib-lock-internals:%s' % kind_of(cls)
         chk.violation(key, '%s/%s: terminate landing at %s line %s (%s, region %s): %s; outcome shape %s, terminate=%s' % (
             cls, scen, lp.where(dg['point']), dg['point'].get('line'), dg['point']['kind'], region, ', '.join(probs), sh, term), lp.witness(case, dg))
     elif len(chk.samples) < 6 and region in ('try-body', 'post-target'):
